@@ -19,7 +19,7 @@ PUB, PRIV = 1, -1
 
 class W:
     def __init__(self, m1_private=False, vis_a=0, vis_b=0, vis_c=0, u21=0, m2_private=False, m2_pub_stmt=False,
-                 target="m2", up=0, local_a=0, second_use=0):
+                 target="m2", up=0, local_a=0, second_use=0, vis_ex=0):
         self.m1_private = m1_private  # bare PRIVATE statement in m1
         self.vis_a, self.vis_b, self.vis_c = vis_a, vis_b, vis_c  # 0 default, 1 attr public, -1 attr private, 2 stmt public, -2 stmt private
         self.u21 = u21              # m2: 0 'use m1', 1 only: a, 2 only: z => a, 3 only: b
@@ -28,6 +28,7 @@ class W:
         self.target, self.up = target, up   # main: use target; 0 plain, 1 only: a, 2 only: y => a, 3 only: b, 4 only: d, 5 only: z
         self.local_a = local_a      # 0 none, 1 declared in main, 2 declared in inner, 3 both
         self.second_use = second_use  # 0 none; 1 main additionally 'use m1, only: b'
+        self.vis_ex = vis_ex        # accessibility statement for the interface-block procedure ex: 0 none, 2 public, -2 private
 
     # ------------------------------------------------------------------ rendering
     def files(self):
@@ -43,7 +44,7 @@ class W:
         self.decl["m1:a"] = (f"{R}/m1.f90", len(f1) - 1, f1[-1].index(":: a") + 3)
         f1.append(f"  real{attr(self.vis_b)} :: b")
         self.decl["m1:b"] = (f"{R}/m1.f90", len(f1) - 1, f1[-1].index(":: b") + 3)
-        for n, v in (("a", self.vis_a), ("b", self.vis_b), ("c", self.vis_c)):
+        for n, v in (("a", self.vis_a), ("b", self.vis_b), ("c", self.vis_c), ("ex", self.vis_ex)):
             if v == 2:
                 f1.append(f"  public :: {n}")
             elif v == -2:
@@ -105,7 +106,7 @@ class W:
 
     def exports_m1(self):
         out = {}
-        for n, v in (("a", self.vis_a), ("b", self.vis_b), ("c", self.vis_c), ("ex", 0)):
+        for n, v in (("a", self.vis_a), ("b", self.vis_b), ("c", self.vis_c), ("ex", self.vis_ex)):
             if self._public(v, self.m1_private):
                 out[n] = f"m1:{n}"
         return out
